@@ -1319,7 +1319,7 @@ class C13Machine(TraceMachine):
 
 
 def run(ctx):
-    n = ctx.n(quick=80, thorough=1200)
+    n = ctx.n(quick=80, thorough=1000)
     if ctx.scratch_kind == "disk":  # sqlite on ext4 syncs: same budget, fewer histories
         n = max(1, n // 3)
     run_trace_machine(ctx, C13Machine, n, 15)
